@@ -25,6 +25,8 @@ static const char *const OTHER[] = {
 	"timer with leeway 1 ms: start +1 ms, interval 2 ms, 3 firings",
 	"armed lone timer (+60 s, beyond the horizon) re-set from the main thread to +2 ms: must follow the new settings",
 	"armed timer (+60 s) re-set to +2 ms while another timer (+4 ms) is pending",
+	"armed uptime timer (+60 s) re-set to the wall clock (+2 ms) while a wall-clock dispatch_after (+4 ms) is pending",
+	"armed wall-clock timer (+60 s) re-set to the uptime clock (+3 ms) while two uptime dispatch_after (+2 ms, +5 ms) are pending",
 };
 #define N_OTHER ((int)(sizeof(OTHER) / sizeof(OTHER[0])))
 enum { EV_ARM = EV_USER, EV_FIRE, EV_TIMER_FIRE, EV_SETTIMER, EV_RESUME };
@@ -130,6 +132,20 @@ static void run(int v)
 		wait_int(&g_tfires, 1);
 		if (v - N_AFTER == 11) wait_int(&g_fired, 1);
 		break;
+	case 12:   // the timer moves from one clock's heap to another's: neither heap may lose or misplace an entry
+		mk_timer(CK_UPTIME, 60000 * (int64_t)MS, DISPATCH_TIME_FOREVER, 0, 1);
+		arm_after(1, CK_WALL, 4 * MS);
+		vx_sleep_ns(1 * MS);
+		set_timer(CK_WALL, 2 * (int64_t)MS, DISPATCH_TIME_FOREVER, 0);
+		wait_int(&g_tfires, 1); wait_int(&g_fired, 1);
+		break;
+	case 13:
+		mk_timer(CK_WALL, 60000 * (int64_t)MS, DISPATCH_TIME_FOREVER, 0, 1);
+		arm_after(1, CK_UPTIME, 2 * MS); arm_after(2, CK_UPTIME, 5 * MS);
+		vx_sleep_ns(1 * MS);
+		set_timer(CK_UPTIME, 3 * (int64_t)MS, DISPATCH_TIME_FOREVER, 0);
+		wait_int(&g_tfires, 1); wait_int(&g_fired, 2);
+		break;
 	}
 	vx_focus_end();
 	// nothing may fire again after cancellation / one-shot completion: let 5 virtual ms pass
@@ -141,8 +157,8 @@ static int check(int v, const vx_log *l, char *msg, size_t len)
 {
 	uint64_t arm_vt[16]; int64_t arm_d[16]; int nfire[16], armed[16];
 	memset(arm_vt, 0, sizeof arm_vt); memset(arm_d, 0, sizeof arm_d); memset(nfire, 0, sizeof nfire); memset(armed, 0, sizeof armed);
-	static const uint64_t INTERVAL[] = { 1 * MS, 1 * MS, 0, 1 * MS, 0, 0, 0, 0, 0, 2 * MS, 0, 0 };
-	static const int WANT[] = { 4, 4, 0, 2, 2, 1, 1, 0, 1, 3, 1, 1 };
+	static const uint64_t INTERVAL[] = { 1 * MS, 1 * MS, 0, 1 * MS, 0, 0, 0, 0, 0, 2 * MS, 0, 0, 0, 0 };
+	static const int WANT[] = { 4, 4, 0, 2, 2, 1, 1, 0, 1, 3, 1, 1, 1, 1 };
 	int k = v - N_AFTER;
 	uint64_t interval = k >= 0 ? INTERVAL[k] : 0;
 	uint64_t start = 0, first_start = 0, resume_vt = 0; int nset = 0, timer_fires = 0;
@@ -173,7 +189,7 @@ static int check(int v, const vx_log *l, char *msg, size_t len)
 	for (int id = 1; id < 16; id++) if (armed[id] && nfire[id] != 1) FAILF(msg, len, "dispatch_after block %d ran %d times", id, nfire[id]);
 	if (k >= 0) {
 		// periodic timers may coalesce several intervals into one invocation: only one-shot counts are exact
-		if ((k == 4 || k == 5 || k == 6 || k == 8 || k == 10 || k == 11) && timer_fires != WANT[k]) FAILF(msg, len, "one-shot timer handler ran %d times (expected %d)", timer_fires, WANT[k]);
+		if ((k == 4 || k == 5 || k == 6 || k == 8 || k >= 10) && timer_fires != WANT[k]) FAILF(msg, len, "one-shot timer handler ran %d times (expected %d)", timer_fires, WANT[k]);
 		if (timer_fires > WANT[k]) FAILF(msg, len, "timer handler ran %d times although it was cancelled at its %dth invocation", timer_fires, WANT[k]);
 	}
 	return 0;
